@@ -20,6 +20,7 @@ import (
 	"github.com/containerd/stargz-snapshotter/task"
 	digest "github.com/opencontainers/go-digest"
 	ocispec "github.com/opencontainers/image-spec/specs-go/v1"
+	bolt "go.etcd.io/bbolt"
 	"pgregory.net/rapid"
 	"verifharness/lib/memreg"
 	"verifharness/lib/stores"
@@ -76,6 +77,8 @@ type Stack struct {
 	TaskMgr  *task.BackgroundTaskManager
 	Ref      reference.Spec
 
+	DB       *bolt.DB // metadata DB (db store only)
+
 	mu   sync.Mutex
 	exts map[digest.Digest][]byte // external TOCs by layer digest
 }
@@ -112,6 +115,7 @@ func New(cfg Config) (*Stack, error) {
 			os.RemoveAll(root)
 			return nil, err
 		}
+		s.DB = db
 		st = stores.DBStore(db)
 	} else {
 		st, _ = stores.Store("memory")
@@ -164,4 +168,43 @@ func (s *Stack) Resolve(desc ocispec.Descriptor) (layer.Layer, error) {
 }
 
 // Close removes the stack's directory.
-func (s *Stack) Close() { os.RemoveAll(s.Root) }
+func (s *Stack) Close() {
+	if s.DB != nil {
+		s.DB.Close()
+	}
+	os.RemoveAll(s.Root)
+}
+
+// CacheDirs counts the per-layer fscache and per-blob httpcache directories that exist.
+func (s *Stack) CacheDirs() (fscache, httpcache int) {
+	for i, sub := range []string{"fscache", "httpcache"} {
+		ents, _ := os.ReadDir(filepath.Join(s.Root, "stargz", sub))
+		n := 0
+		for _, e := range ents {
+			if e.IsDir() {
+				n++
+			}
+		}
+		if i == 0 {
+			fscache = n
+		} else {
+			httpcache = n
+		}
+	}
+	return
+}
+
+// DBBuckets counts the filesystem buckets in the metadata DB (-1 if the store is not the DB store).
+func (s *Stack) DBBuckets() int {
+	if s.DB == nil {
+		return -1
+	}
+	n := 0
+	s.DB.View(func(tx *bolt.Tx) error {
+		if b := tx.Bucket([]byte("filesystems")); b != nil {
+			b.ForEach(func(k, v []byte) error { n++; return nil })
+		}
+		return nil
+	})
+	return n
+}
